@@ -345,9 +345,11 @@ func TestCheck(t *testing.T) {
 			}
 		}
 		// two flows on the same URL with different method lists, in one engine
-		idx++
-		if r.Mine(idx) {
-			mls := [][]string{{"GET"}, {"POST", "PUT"}}
+		for _, mls := range [][][]string{{{"GET"}, {"POST", "PUT"}}, {nil, {"GET"}}, {{"DELETE"}, nil}} {
+			idx++
+			if !r.Mine(idx) {
+				continue
+			}
 			if exprs, manageAll, err := flowExpressionsMulti(p, mls); err == nil && !manageAll {
 				for _, ml := range mls {
 					for _, u := range urls {
